@@ -19,7 +19,7 @@ from ..avm import asm
 
 PID = "C13"
 
-STR_ALPHA = ['"', "\\", "/", ";", " ", "n", "x", "0", "\n", "\r", "\t", "\x00", "\x7f", "é", " ", "😀", ")", "("]
+STR_ALPHA = ['"', "\\", "/", ";", " ", "n", "x", "0", "\n", "\r", "\t", "\x00", "\x7f", "é", " ", "😀", ")", "(", "\ufeff", "\u2028"]
 B16_ALPHA = ["0", "f", "A", "g", "x", " ", "="]
 B32_ALPHA = ["A", "M", "7", "1", "a", "=", "8"]
 B64_ALPHA = ["A", "Y", "z", "/", "+", "=", "-", " "]
